@@ -16,7 +16,7 @@ from sa.core import rule, AnalysisError
 from sa.pyindex import (get_module, dotted, src, calls_in, try_fold,
                         walk_no_nested, all_py_files)
 from sa import flow
-from rules.provenance import ReachingDefs, bind_args
+from rules.provenance import ReachingDefs, bind_args, strip_iter_wrappers
 
 EXPLANATION = (
     "Who-may-transform and typing rules for merge_pyi.py.  R20.1: in "
@@ -163,8 +163,12 @@ class CstModel:
               fields[s.target.id] = s.annotation
           self.classes[st.name] = {
               "bases": [dotted(b).split(".")[-1] for b in st.bases if dotted(b)],
-              "fields": fields, "file": os.path.basename(path)}
+              "fields": fields, "file": os.path.basename(path), "node": st,
+              "dataclass": any(
+                  (dotted(d.func if isinstance(d, ast.Call) else d) or "")
+                  .split(".")[-1] == "dataclass" for d in st.decorator_list)}
     self._cone = {}
+    self._init_order = {}
     self.children = {}
     for name, c in self.classes.items():
       for b in c["bases"]:
@@ -191,6 +195,48 @@ class CstModel:
       out.append(n)
       todo.extend(self.classes[n]["bases"])
     return out
+
+  def init_order(self, cls):
+    """Positional parameter order of the constructor of node class `cls`: the
+    order the @dataclass decorator derives from the field declarations (own
+    annotated class attributes in source order; ClassVar is not a field).
+    Inherited dataclass fields, init=False and keyword-only fields are outside
+    the model."""
+    if cls not in self._init_order:
+      c = self.classes.get(cls)
+      if c is None or not c["dataclass"]:
+        raise AnalysisError(f"libcst reference: {cls} is not a @dataclass node class")
+      for anc in self.mro_names(cls)[1:]:
+        a = self.classes[anc]
+        if a["dataclass"] and any(not self._is_classvar(x) for x in a["fields"].values()):
+          raise AnalysisError(
+              f"libcst reference: {cls} inherits dataclass fields from {anc}: "
+              "positional order not modelled")
+      order = []
+      for s in c["node"].body:
+        if not (isinstance(s, ast.AnnAssign) and isinstance(s.target, ast.Name)):
+          continue
+        if self._is_classvar(s.annotation):
+          continue
+        if "KW_ONLY" in src(s.annotation):
+          raise AnalysisError(f"libcst reference: {cls} has keyword-only fields")
+        if isinstance(s.value, ast.Call):
+          for k in s.value.keywords:
+            if k.arg in ("init", "kw_only"):
+              raise AnalysisError(
+                  f"libcst reference: {cls}.{s.target.id} uses field({k.arg}=..)")
+        if s.target.id not in order:
+          order.append(s.target.id)
+      self._init_order[cls] = order
+    return self._init_order[cls]
+
+  @staticmethod
+  def _is_classvar(ann):
+    if isinstance(ann, ast.Constant) and isinstance(ann.value, str):
+      return ann.value.replace("typing.", "").startswith("ClassVar")
+    if isinstance(ann, ast.Subscript):
+      ann = ann.value
+    return (dotted(ann) or "").split(".")[-1] == "ClassVar"
 
   def field_type(self, cls, attr):
     for c in self.mro_names(cls):
@@ -268,13 +314,101 @@ def show(typeset):
 
 # -- typing expressions of a transformer method ---------------------------------------
 
-class Typer:
-  """Static types of attribute chains inside one method."""
+class _Freshness:
+  """Which path-condition tests still speak about the *current* value of the
+  names they mention.
 
-  def __init__(self, model, mod, env):
+  sa.flow.guards is purely structural: it reports `isinstance(node, A)` for a
+  use of `node` even when `node` was re-bound (`node = node.value`) between
+  the test and the use.  Must-mode flow: the fact "test T was evaluated and no
+  name T mentions has been bound since" is generated where T is evaluated and
+  killed by every binding of one of its names; a guard is fresh at a use iff
+  that fact holds on every path to the statement of the use.  A stale guard is
+  dropped (less narrowing, wider static type)."""
+
+  def __init__(self, mod, fn, rd):
+    self.mod, self.fn, self.rd = mod, fn, rd
+    self.units = {}
+    for n in walk_no_nested(fn):
+      if isinstance(n, (ast.If, ast.While)):
+        self.units[n.test] = n.test
+      elif isinstance(n, ast.Assert):
+        self.units[n.test] = n
+    self._names = {}
+    self._binds = {}
+    self.rebound = set(rd.unsupported)
+    tests = set(self.units.values())
+
+    def binds(unit):
+      if unit not in self._binds:
+        self._binds[unit] = frozenset(d.name for d in rd._gen_unit(unit))
+        self.rebound |= self._binds[unit]
+      return self._binds[unit]
+
+    def gen(unit):
+      if unit in tests and not (self.names(unit) & binds(unit)):
+        return [unit]
+      return ()
+
+    def kill(unit):
+      b = binds(unit)
+      if not b:
+        return None
+      return lambda fact: bool(self.names(fact) & b)
+    self.flow = flow.flow(fn, gen, kill, mode="must")
+
+  def names(self, node):
+    if node not in self._names:
+      self._names[node] = frozenset(
+          n.id for n in ast.walk(node) if isinstance(n, ast.Name))
+    return self._names[node]
+
+  def fresh(self, test, use):
+    names = self.names(test) & self.rebound
+    if not names:
+      return True     # nothing the test mentions is ever re-bound in the function
+    if names & set(self.rd.unsupported):
+      return False
+    stmt = self.mod.enclosing_stmt(use)
+    header = stmt
+    if isinstance(stmt, (ast.If, ast.While)):
+      header = stmt.test
+    elif not isinstance(stmt, (ast.Return, ast.Assign, ast.AnnAssign, ast.AugAssign,
+                               ast.Expr, ast.Assert, ast.Raise)):
+      return False    # for/with/try/match headers bind names: not modelled
+    if any(isinstance(n, ast.NamedExpr) and n.target.id in names
+           for n in ast.walk(header)):
+      return False
+    unit = self.units.get(test)
+    if unit is None:
+      # an earlier operand of the same expression (and-chain, conditional
+      # expression): nothing but a walrus could re-bind in between
+      return self.mod.enclosing_stmt(test) is stmt
+    st = self.flow.after_header.get(stmt) if isinstance(stmt, ast.While) \
+        else self.flow.before.get(stmt)
+    return st is not None and unit in st
+
+
+class Typer:
+  """Static types of expressions inside one method.
+
+  With `fn` given, local names are typed flow-sensitively: the type of a use
+  is the join over its reaching definitions (parameter type, type of the
+  assigned value in the context of the assignment, element type of the
+  iterated sequence for loop / comprehension targets), and a narrowing test is
+  applied only while it is fresh (see _Freshness)."""
+
+  def __init__(self, model, mod, env, fn=None):
     self.model = model
     self.mod = mod
     self.env = env  # parameter name -> typeset
+    self.fn = fn
+    self.rd = ReachingDefs(mod, fn) if fn is not None else None
+    self._freshness = None
+    self._depth = 0
+    self._active = set()
+    self._assumed = {}
+    self._grew = self._cyclic = False
 
   def node_class(self, expr):
     """Resolves `cst.X` / `expression.X` to a libcst node class name."""
@@ -287,21 +421,98 @@ class Typer:
       return name
     return None
 
+  # -- path conditions ---------------------------------------------------------
+  def tests_at(self, node):
+    """Tests known to hold when `node` is evaluated (stale ones dropped)."""
+    tests = _context_tests(self.mod, self.fn, node)
+    if self.rd is None:
+      return tests
+    if self._freshness is None:
+      self._freshness = _Freshness(self.mod, self.fn, self.rd)
+    return [(t, pol) for t, pol in tests if self._freshness.fresh(t, node)]
+
+  def narrow_at(self, node):
+    return self.narrowings(self.tests_at(node))
+
+  # -- types -------------------------------------------------------------------
   def type_of(self, expr, narrow):
+    if self._depth:
+      return self._type_of(expr, narrow)
+    for _ in range(40):
+      self._grew = self._cyclic = False
+      self._depth = 1
+      try:
+        t = self._type_of(expr, narrow)
+      finally:
+        self._depth = 0
+        self._active.clear()
+      if not (self._cyclic and self._grew):
+        return t
+    raise AnalysisError(f"typing: no fixpoint for {src(expr)[:60]}")
+
+  def _def_type(self, d, compute):
+    """Type contributed by one definition; loop-carried definitions (`x =
+    x.value` in a loop) are solved by iteration from the empty type."""
+    if d in self._active:
+      self._cyclic = True
+      return self._assumed.get(d, frozenset())
+    self._active.add(d)
+    try:
+      t = compute()
+    finally:
+      self._active.discard(d)
+    if self._assumed.get(d, frozenset()) != t:
+      self._assumed[d] = t | self._assumed.get(d, frozenset())
+      self._grew = True
+    return self._assumed[d]
+
+  def _name_type(self, expr):
+    if self.rd is None:
+      if expr.id in self.env:
+        return self.env[expr.id]
+      raise AnalysisError(f"typing: {expr.id} has no known static type")
+    ds = self.rd.defs_of(expr)
+    if not ds:
+      raise AnalysisError(f"typing: {expr.id} has no known static type")
+    out = frozenset()
+    for d in sorted(ds, key=lambda d: (getattr(d.node, "lineno", 0), d.kind)):
+      if d.kind == "param":
+        if d.name not in self.env:
+          raise AnalysisError(f"typing: {expr.id} has no known static type")
+        out |= self.env[d.name]
+      elif d.kind in ("assign", "walrus") and not d.path:
+        out |= self._def_type(
+            d, lambda d=d: self._type_of(d.value, self.narrow_at(d.value)))
+      elif d.kind in ("for", "comp") and not d.path:
+        it = strip_iter_wrappers(d.value)
+        seq = self._def_type(
+            d, lambda it=it: self._type_of(it, self.narrow_at(it)))
+        for a in seq:
+          if not isinstance(a, tuple):
+            raise AnalysisError(
+                f"typing: {expr.id} iterates over non-sequence type {a}")
+          out |= a[1]
+      else:
+        raise AnalysisError(f"typing: {expr.id} is bound by {d.describe()}")
+    return out
+
+  def _type_of(self, expr, narrow):
     key = src(expr)
     if key in narrow:
       return narrow[key]
     if isinstance(expr, ast.Name):
-      if expr.id in self.env:
-        return self.env[expr.id]
-      raise AnalysisError(f"typing: {expr.id} has no known static type")
+      return self._name_type(expr)
     if isinstance(expr, ast.Constant) and expr.value is None:
       return frozenset(["None"])
+    if isinstance(expr, ast.Constant) and isinstance(expr.value, str):
+      return frozenset(["str"])
+    if isinstance(expr, ast.JoinedStr):
+      return frozenset(["str"])
     if isinstance(expr, ast.Attribute):
       d = dotted(expr)
       if d and d.endswith("MaybeSentinel.DEFAULT"):
         return frozenset(["MaybeSentinel"])
-      base = self.type_of(expr.value, narrow)
+      base = self._type_of(expr.value, narrow)
       out = frozenset()
       for a in base:
         if a == "None":
@@ -319,12 +530,26 @@ class Typer:
       c = self.node_class(expr.func)
       if c:
         return frozenset([c])
+      if isinstance(expr.func, ast.Name) and expr.func.id in ("repr", "str") \
+          and self._is_builtin(expr.func):
+        return frozenset(["str"])
     if isinstance(expr, (ast.List, ast.Tuple)):
       inner = frozenset()
       for e in expr.elts:
-        inner |= self.type_of(e, narrow)
+        if isinstance(e, ast.Starred):
+          raise AnalysisError(f"typing: cannot type {key[:60]}")
+        inner |= self._type_of(e, narrow)
       return frozenset([("seq", inner)])
+    if isinstance(expr, ast.ListComp) and self.rd is not None:
+      # (the comprehension's own `if` clauses narrow nothing here: wider type)
+      return frozenset([("seq", self._type_of(expr.elt, self.narrow_at(expr.elt)))])
     raise AnalysisError(f"typing: cannot type {key[:60]}")
+
+  def _is_builtin(self, name):
+    if name.id in self.mod.imports or name.id in self.mod.classes or \
+        name.id in self.mod.functions or name.id in self.mod.assigns:
+      return False
+    return self.rd is None or not self.rd.defs_of(name)
 
   def narrowings(self, tests):
     """tests: [(expr, polarity)] known to hold -> {source text: typeset}."""
@@ -420,6 +645,75 @@ def _transformer_classes(ctx, mod):
     if need not in out:
       raise AnalysisError(f"anchor class {need} (a CSTTransformer) not found in {MP}")
   return out
+
+
+_READ_ONLY_BASES = ("CSTVisitor",)
+
+
+def _class_kind(mod, cname):
+  """'visitor' for a class that can only read a tree: every base class on its
+  module-local inheritance chain is module-local or libcst's CSTVisitor
+  (libcst discards what the callbacks of a CSTVisitor return, see
+  _visitor_reference); 'transformer' otherwise (anything else may rebuild
+  nodes, or is not known not to)."""
+  seen_visitor = False
+  for k in _local_mro(mod, cname):
+    for b in mod.classes[k].bases:
+      d = dotted(b) or ""
+      if d in mod.classes:
+        continue
+      head = d.rsplit(".", 1)[0] if "." in d else ""
+      if d.split(".")[-1] in _READ_ONLY_BASES and (
+          mod.imports.get(head, "").split(".")[0] == "libcst"
+          or mod.imports.get(d, "").split(".")[0] == "libcst"):
+        seen_visitor = True
+        continue
+      return "transformer"
+  return "visitor" if seen_visitor else "transformer"
+
+
+def _visitor_reference(ctx):
+  """Reads from libcst's CSTNode.visit (libcst/_nodes/base.py) that the result
+  of visiting with a CSTVisitor is the visited node itself: the branch
+  `if isinstance(visitor, CSTVisitor): ...; leave_result = self`, and
+  `return leave_result`."""
+  def load():
+    model = _cst(ctx)
+    c = model.classes.get("CSTNode")
+    if c is None:
+      raise AnalysisError("libcst reference: class CSTNode not found")
+    fn = next((s for s in c["node"].body
+               if isinstance(s, ast.FunctionDef) and s.name == "visit"), None)
+    if fn is None or len(fn.args.args) != 2:
+      raise AnalysisError("libcst reference: CSTNode.visit(self, visitor) not found")
+    self_, vis = (a.arg for a in fn.args.args)
+    rets = [r for r in walk_no_nested(fn) if isinstance(r, ast.Return)]
+    if len(rets) != 1 or not isinstance(rets[0].value, ast.Name):
+      raise AnalysisError("libcst reference: CSTNode.visit does not return one local")
+    res = rets[0].value.id
+    binds = [a for a in walk_no_nested(fn) if isinstance(a, ast.Assign)
+             and any(isinstance(t, ast.Name) and t.id == res for t in a.targets)]
+    for a in binds:
+      if src(a.value) != self_:
+        continue
+      par = c_parent(fn, a)
+      if isinstance(par, ast.If) and a in par.body and \
+          src(par.test) == f"isinstance({vis}, CSTVisitor)" and \
+          len([b for b in binds if b in par.body]) == 1:
+        return {"function": "CSTNode.visit", "file": "_nodes/base.py",
+                "branch": src(par.test), "result": f"{res} = {self_}"}
+    raise AnalysisError(
+        "libcst reference: CSTNode.visit no longer returns the node itself for "
+        "a CSTVisitor")
+  return ctx.memo(("c20", "visitor-ref"), load)
+
+
+def c_parent(root, node):
+  for n in ast.walk(root):
+    for c in ast.iter_child_nodes(n):
+      if c is node:
+        return n
+  return None
 
 
 def _methods(mod, cname):
@@ -519,6 +813,10 @@ def _build(ctx):
   m = _M()
   m.mod = mod = get_module(ctx, MP)
   m.classes = _transformer_classes(ctx, mod)
+  m.kinds = {c: _class_kind(mod, c) for c in m.classes}
+  for need in REQUIRED_FILTERS:
+    if m.kinds[need] != "transformer":
+      raise AnalysisError(f"anchor class {need} is not a CSTTransformer")
   m.ms = mod.func("merge_sources")
   m.mc = mod.func("_merge_csts")
   m.rd_ms = rd = ReachingDefs(mod, m.ms)
@@ -536,16 +834,66 @@ def _build(ctx):
   return m
 
 
-def _visit_class(m, step):
-  """Transformer class instantiated in a `.visit(K())` step, else None."""
+def _ctor_of(m, rd, expr):
+  """The `K(...)` call that creates the module-local visitor/transformer
+  instance `expr` evaluates to: written in place, or held in a local with
+  exactly one reaching definition.  None when it is something else.  The
+  constructor arguments must bind to K's __init__ (found through the
+  module-local bases; libcst's own __init__ takes none)."""
+  for _ in range(10):
+    if isinstance(expr, ast.Name) and rd is not None:
+      ds = rd.defs_of(expr)
+      if len(ds) != 1:
+        return None
+      d = next(iter(ds))
+      if d.kind != "assign" or d.path:
+        return None
+      expr = d.value
+      continue
+    break
+  if not (isinstance(expr, ast.Call) and isinstance(expr.func, ast.Name)
+          and expr.func.id in m.classes):
+    return None
+  if rd is not None and rd.defs_of(expr.func):
+    return None     # a local shadows the class name
+  init = _methods(m.mod, expr.func.id).get("__init__")
+  if init is None:
+    if expr.args or expr.keywords:
+      raise AnalysisError(
+          f"{expr.func.id}(..) is given arguments but defines no __init__")
+  else:
+    bind_args(expr, init, skip_self=True)   # AnalysisError when they do not bind
+  return expr
+
+
+def _visit_step(m, rd, step):
+  """(class name, constructor call) for a `.visit(<instance of K>)` step where
+  K is a visitor/transformer class of the module, else None."""
   attr, call = step
   if attr != "visit" or call is None or len(call.args) != 1 or call.keywords:
     return None
-  a = call.args[0]
-  if isinstance(a, ast.Call) and isinstance(a.func, ast.Name) \
-      and a.func.id in m.classes and not a.args and not a.keywords:
-    return a.func.id
-  return None
+  ctor = _ctor_of(m, rd, call.args[0])
+  return (ctor.func.id, ctor) if ctor is not None else None
+
+
+def _rewriting(m, rd, steps, what):
+  """The steps of a chain that can change the tree: [(class, ctor, visit call)].
+  A `.visit(<read-only visitor>)` step yields the receiver itself and is
+  dropped (recorded by the caller); a step that is not understood is an
+  AnalysisError."""
+  out, readonly = [], []
+  for s in steps:
+    vs = _visit_step(m, rd, s)
+    if vs is None:
+      raise AnalysisError(
+          f"merge_sources: the {what} goes through a step that is not "
+          f".visit(<instance of a local visitor/transformer class>): "
+          f"{[x[0] for x in steps]}")
+    if m.kinds[vs[0]] == "visitor":
+      readonly.append(vs[0])
+    else:
+      out.append((vs[0], vs[1], s[1]))
+  return out, readonly
 
 
 # -- R20.1 ---------------------------------------------------------------------------
@@ -555,31 +903,35 @@ def r20_1(ctx):
   """Filters on the pyi path, nothing on the py path, result = merged.code."""
   m = _model(ctx)
   mod, rd = m.mod, m.rd_ms
-  applied = [_visit_class(m, s) for s in m.pyi_steps]
   if not _is_parse_of(mod, rd, m.pyi_base, "pyi"):
     ctx.bad("merge_sources:pyi-tree-is-the-parsed-stub", MP, m.call.lineno,
             "the pyi_tree handed to _merge_csts is not built from "
             "cst.parse_module(pyi)", {"base": src(m.pyi_base[1]) if m.pyi_base[0] != 'param' else m.pyi_base[1].name})
     return
-  if any(a is None for a in applied):
-    raise AnalysisError(
-        "merge_sources: the pyi tree goes through a step that is not "
-        f".visit(<local transformer>()): {[s[0] for s in m.pyi_steps]}")
+  rewriting, readonly = _rewriting(m, rd, m.pyi_steps, "pyi tree")
+  if readonly:
+    _visitor_reference(ctx)
+  applied = [r[0] for r in rewriting]
   for need in REQUIRED_FILTERS:
     ctx.check(need in applied, f"merge_sources:pyi-tree-passes:{need}", MP,
               m.call.lineno,
               f"the stub tree reaches _merge_csts without passing {need} "
               f"(applied: {applied}); the annotations it removes (Any/Never, "
               "trivial literal types) would be merged into the source",
-              {"applied": applied})
+              {"applied": applied, "read_only_steps": readonly})
   py_ok = _is_parse_of(mod, rd, m.py_base, "py")
-  ctx.check(py_ok and not m.py_steps, "merge_sources:py-tree-untransformed", MP,
+  py_rewriting, py_readonly = ([], []) if not py_ok else _rewriting(
+      m, rd, m.py_steps, "py tree")
+  if py_readonly:
+    _visitor_reference(ctx)
+  ctx.check(py_ok and not py_rewriting, "merge_sources:py-tree-untransformed", MP,
             m.call.lineno,
             "the py_tree handed to _merge_csts must be cst.parse_module(py) "
             f"itself; found base {src(m.py_base[1]) if m.py_base[0] != 'param' else m.py_base[1].name} "
             f"followed by {[s[0] for s in m.py_steps]}: any other transformer "
             "on the source tree can change more than annotations",
-            {"steps": [s[0] for s in m.py_steps]})
+            {"steps": [s[0] for s in m.py_steps],
+             "rewriting": [r[0] for r in py_rewriting], "read_only_steps": py_readonly})
   rets = [n for n in walk_no_nested(m.ms) if isinstance(n, ast.Return)]
   if not rets:
     raise AnalysisError("merge_sources has no return")
@@ -744,7 +1096,13 @@ def _isinstance_tests(typer, fn):
     if not all(names):
       continue
     out.append((c, c.args[0], names))
-  return out
+  return sorted(out, key=lambda x: (x[0].lineno, x[0].col_offset))
+
+
+def _nth(seen, construct):
+  """`construct`, numbered from the second occurrence on (source order)."""
+  k = seen[construct] = seen.get(construct, 0) + 1
+  return construct if k == 1 else f"{construct}#{k}"
 
 
 def _root_name(expr):
@@ -766,16 +1124,16 @@ def r20_3(ctx):
       env = _method_env(model, mod, fn)
       if env is None:
         continue
-      typer = Typer(model, mod, env)
+      typer = Typer(model, mod, env, fn)
       # isinstance tests written directly in the callback
+      keys = {}
       for c, subj, names in _isinstance_tests(typer, fn):
         if _root_name(subj) not in env:
           continue
-        narrow = typer.narrowings(_context_tests(mod, fn, c))
-        t = typer.type_of(subj, narrow)
+        t = typer.type_of(subj, typer.narrow_at(c))
         n += 1
         ctx.check(any(model.can_be(t, k) for k in names),
-                  f"{cname}.{mname}:isinstance({src(subj)},{'|'.join(names)})",
+                  _nth(keys, f"{cname}.{mname}:isinstance({src(subj)},{'|'.join(names)})"),
                   MP, c.lineno,
                   f"{src(subj)} has static type {show(t)} and can never be a "
                   f"{'/'.join(names)}: the test is always false",
@@ -788,7 +1146,7 @@ def r20_3(ctx):
         if _method_env(model, mod, pred) is not None:
           continue
         bound = bind_args(call, pred, skip_self=True)
-        cnarrow = typer.narrowings(_context_tests(mod, fn, call))
+        cnarrow = typer.narrow_at(call)
         penv = {}
         for p, a in bound.items():
           try:
@@ -797,17 +1155,20 @@ def r20_3(ctx):
             if any(_root_name(s) == p for _, s, _ in _isinstance_tests(
                 Typer(model, mod, {}), pred)):
               raise
-        ptyper = Typer(model, mod, penv)
+        ptyper = Typer(model, mod, penv, pred)
         for c, subj, names in _isinstance_tests(ptyper, pred):
           root = _root_name(subj)
           if root not in penv:
             continue
-          narrow = ptyper.narrowings(_context_tests(mod, pred, c))
-          t = ptyper.type_of(subj, narrow)
+          # the subject is typed where the test stands: a parameter re-bound on
+          # the way (`while isinstance(p, A): p = p.value`) has the join of the
+          # types of the values assigned to it, and a test made on an earlier
+          # value of the name no longer narrows it
+          t = ptyper.type_of(subj, ptyper.narrow_at(c))
           n += 1
           arg = src(bound[root])
           ctx.check(any(model.can_be(t, k) for k in names),
-                    f"{cname}.{pred.name}@{mname}:isinstance({src(subj)},{'|'.join(names)})",
+                    _nth(keys, f"{cname}.{pred.name}@{mname}:isinstance({src(subj)},{'|'.join(names)})"),
                     MP, call.lineno,
                     f"{mname} passes {arg} (static type {show(penv[root])}, from "
                     f"the libcst field declarations) to {pred.name}, whose test "
@@ -831,12 +1192,33 @@ def r20_4(ctx):
   """Who may transform: local transformers run on the stub chain only."""
   m = _model(ctx)
   mod = m.mod
-  chain_visits = {s[1] for s in m.pyi_steps if s[1] is not None}
-  on_chain = set()
-  for call in chain_visits:
-    for a in call.args:
-      if isinstance(a, ast.Call):
-        on_chain.add(a)
+  rd = m.rd_ms
+  rewriting, _ = _rewriting(m, rd, m.pyi_steps, "pyi tree")
+  chain_visits = {r[2] for r in rewriting}
+  on_chain = {r[1] for r in rewriting}
+  rds = {m.ms: rd}
+
+  def rd_of(node):
+    fn = mod.enclosing_function(node)
+    if fn is None or isinstance(fn, ast.Lambda):
+      return None
+    if fn not in rds:
+      rds[fn] = ReachingDefs(mod, fn)
+    return rds[fn]
+
+  # `.visit(v)` with v an instance of a read-only visitor class returns the
+  # receiver unchanged whatever the receiver is: not a rewrite
+  read_only_visits = {}
+  for c in ast.walk(mod.tree):
+    if isinstance(c, ast.Call) and isinstance(c.func, ast.Attribute) \
+        and c.func.attr == "visit" and c not in chain_visits:
+      try:
+        vs = _visit_step(m, rd_of(c), ("visit", c))
+      except AnalysisError:
+        vs = None
+      if vs is not None and m.kinds[vs[0]] == "visitor":
+        read_only_visits[c] = vs
+  visited_instances = {vs[1] for vs in read_only_visits.values()}
   for cname in sorted(m.classes):
     made = [c for c in ast.walk(mod.tree) if isinstance(c, ast.Call)
             and isinstance(c.func, ast.Name) and c.func.id == cname]
@@ -850,6 +1232,14 @@ def r20_4(ctx):
       raise AnalysisError(
           f"{cname} is referenced without being called (line "
           f"{other_refs[0].lineno}): aliasing is not tracked")
+    if m.kinds[cname] == "visitor":
+      # cannot rewrite any tree: where it is instantiated does not matter
+      ref = _visitor_reference(ctx)
+      ctx.ok(f"{cname}:read-only-visitor", MP, mod.cls(cname).lineno,
+             {"instantiations": len(made),
+              "passed_to_visit": len([c for c in made if c in visited_instances]),
+              "libcst": ref})
+      continue
     stray = [c for c in made if c not in on_chain]
     if not made and cname in REQUIRED_FILTERS:
       stray = [mod.cls(cname)]
@@ -864,12 +1254,16 @@ def r20_4(ctx):
   extra = []
   for c in ast.walk(mod.tree):
     if isinstance(c, ast.Call) and isinstance(c.func, ast.Attribute) \
-        and c.func.attr in _REWRITERS and c not in known:
+        and c.func.attr in _REWRITERS and c not in known \
+        and c not in read_only_visits:
       extra.append(f"{src(c.func)}@{mod.enclosing_function(c).name if mod.enclosing_function(c) else '<module>'}")
   ctx.check(not extra, "merge_pyi:no-other-tree-rewrite", MP,
             0, f"further tree-rewriting calls {extra}: only the stub filters and "
             "the single transform_module(py_tree) of _merge_csts may rewrite a tree",
-            {"known": len(known), "extra": extra})
+            {"known": len(known), "extra": extra,
+             "read_only_visits": sorted(
+                 f"{src(c.func.value)}.visit({vs[0]})"
+                 for c, vs in read_only_visits.items())})
   if ctx.tier == "thorough":
     hits = []
     for rel in all_py_files(ctx):
@@ -1002,44 +1396,70 @@ def r20_6(ctx):
       env = _method_env(model, mod, fn)
       if env is None:
         continue
-      typer = Typer(model, mod, env)
-      for call in calls_in(fn):
+      typer = Typer(model, mod, env, fn)
+      keys = {}
+      for call in sorted(calls_in(fn), key=lambda c: (c.lineno, c.col_offset)):
         built = typer.node_class(call.func)
         recv_types = None
         if built is None and isinstance(call.func, ast.Attribute) \
             and call.func.attr == "with_changes":
-          narrow = typer.narrowings(_context_tests(mod, fn, call))
-          recv_types = typer.type_of(call.func.value, narrow)
+          recv_types = typer.type_of(call.func.value, typer.narrow_at(call))
         if built is None and recv_types is None:
           continue
-        if call.args or any(k.arg is None for k in call.keywords):
-          raise AnalysisError(
-              f"{cname}.{mname}: node built with positional/** arguments")
-        narrow = typer.narrowings(_context_tests(mod, fn, call))
+        if any(isinstance(a, ast.Starred) for a in call.args) or \
+            any(k.arg is None for k in call.keywords):
+          raise AnalysisError(f"{cname}.{mname}: node built with */** arguments")
+        if call.args and built is None:
+          raise AnalysisError(f"{cname}.{mname}: with_changes(<positional>)")
+        narrow = typer.narrow_at(call)
         owners = [built] if built else sorted(
             a for a in recv_types if a in model.classes)
         label = built or "with_changes"
+        # positional arguments bind to the dataclass fields in declaration
+        # order (read from the libcst class); they are judged like keywords
+        given = []
+        if call.args:
+          order = model.init_order(built)
+          for i, a in enumerate(call.args):
+            if i >= len(order):
+              n += 1
+              ctx.bad(_nth(keys, f"{cname}.{mname}:{label}(*{i})"), MP, a.lineno,
+                      f"{built} takes {len(order)} positional arguments "
+                      f"({', '.join(order)}); argument {i + 1} `{src(a)[:40]}` is "
+                      "one too many: TypeError when the filter runs",
+                      {"init_order": order})
+              continue
+            given.append((order[i], a, "positional"))
         for k in call.keywords:
+          if any(k.arg == f for f, _, _ in given):
+            n += 1
+            ctx.bad(_nth(keys, f"{cname}.{mname}:{label}({k.arg}=)"), MP, k.value.lineno,
+                    f"{built} gets {k.arg} both positionally and by keyword: "
+                    "TypeError when the filter runs")
+            continue
+          given.append((k.arg, k.value, "keyword"))
+        for fname, value, how in given:
           accept = None
           for o in owners:
-            ft = model.field_type(o, k.arg)
+            ft = model.field_type(o, fname)
             if ft is None:
               accept = None
               break
             accept = ft if accept is None else (accept & ft)
           n += 1
-          construct = f"{cname}.{mname}:{label}({k.arg}=)"
+          construct = _nth(keys, f"{cname}.{mname}:{label}({fname}=)")
           if accept is None:
-            ctx.bad(construct, MP, k.value.lineno,
-                    f"{'/'.join(owners)} declares no field {k.arg!r}")
+            ctx.bad(construct, MP, value.lineno,
+                    f"{'/'.join(owners)} declares no field {fname!r}")
             continue
-          t = typer.type_of(k.value, narrow)
-          ctx.check(model.assignable(t, accept), construct, MP, k.value.lineno,
-                    f"{k.arg}={src(k.value)} has static type {show(t)} but "
-                    f"{'/'.join(owners)}.{k.arg} is declared {show(accept)} "
+          t = typer.type_of(value, narrow)
+          ctx.check(model.assignable(t, accept), construct, MP, value.lineno,
+                    f"{fname}={src(value)} has static type {show(t)} but "
+                    f"{'/'.join(owners)}.{fname} is declared {show(accept)} "
                     "(e.g. an annotated name without value would become an "
                     "Assign without value: invalid code)",
-                    {"value_type": show(t), "field_type": show(accept)})
+                    {"value_type": show(t), "field_type": show(accept),
+                     "passed": how})
   if not n:
     raise AnalysisError("no node construction found in the filters")
 
@@ -1315,7 +1735,7 @@ def _recognised_spellings(ctx):
   # idiom: `if isinstance(p, Attribute) and ...: p = p.attr` followed by the
   # Name test: a qualified spelling is then recognised for the same names
   for n in ast.walk(pred):
-    if isinstance(n, ast.If) and "Attribute" in tested and \
+    if isinstance(n, (ast.If, ast.While)) and "Attribute" in tested and \
         f"isinstance({p}, " in src(n.test) and "Attribute" in src(n.test):
       for st in n.body:
         if isinstance(st, ast.Assign) and src(st.targets[0]) == p and \
@@ -1553,6 +1973,28 @@ _ANY_QUALIFIED = """  def _is_any_or_never(self, annotation: expression.Annotati
 """
 
 
+_MS_DEF = "def merge_sources(*, py: str, pyi: str) -> str:\n"
+_PY_PARSE = "    py_cst = cst.parse_module(py)\n"
+_NAMES_VISITOR = """class _DefinedNames(cst.CSTVisitor):
+  \"\"\"Collects the names of the functions of a module (read-only).\"\"\"
+
+  def __init__(self):
+    super().__init__()
+    self.names = set()
+
+  def visit_FunctionDef(self, node: cst.FunctionDef) -> None:
+    self.names.add(node.name.value)
+
+
+"""
+_D44_IF = """    if (
+        isinstance(annotation, expression.Attribute)
+        and isinstance(annotation.value, expression.Name)
+        and annotation.value.value == "typing"
+    ):
+"""
+
+
 def _v(name, rid, old, new, expect="fire"):
   return {"name": name, "rule": rid, "file": MP, "old": old, "new": new,
           "expect": expect}
@@ -1585,6 +2027,21 @@ VARIANTS = [
        "    merged_cst = _merge_csts(py_tree=py_cst, pyi_tree=pyi_cst)\n"
        "    return merged_cst.code",
        "    return _merge_csts(pyi_tree=pyi_cst, py_tree=py_cst).code", "silent"),
+    {"name": "twin-filter-instance-held-in-a-local", "rule": "R20.1", "expect": "silent",
+     "edits": [(MP, _PY_PARSE, _PY_PARSE + "    any_filter = RemoveAnyNeverTransformer()\n"),
+               (MP, "        .visit(RemoveAnyNeverTransformer())\n",
+                "        .visit(any_filter)\n")]},
+    {"name": "twin-source-read-by-a-read-only-visitor-inline", "rule": "R20.1",
+     "expect": "silent",
+     "edits": [(MP, _MS_DEF, _NAMES_VISITOR + _MS_DEF),
+               (MP, _PY_PARSE, "    names = _DefinedNames()\n"
+                "    py_cst = cst.parse_module(py).visit(names)\n")]},
+    {"name": "source-passed-through-a-transformer-named-like-a-visitor", "rule": "R20.1",
+     "expect": "fire",
+     "edits": [(MP, _MS_DEF, _NAMES_VISITOR.replace("cst.CSTVisitor", "cst.CSTTransformer")
+                + _MS_DEF),
+               (MP, _PY_PARSE, "    names = _DefinedNames()\n"
+                "    py_cst = cst.parse_module(py).visit(names)\n")]},
     # R20.2
     _v("overwrite-existing-annotations", "R20.2",
        "      overwrite_existing_annotations=False,",
@@ -1614,7 +2071,31 @@ VARIANTS = [
        "            and isinstance(annotation.annotation.value, expression.Name)",
        "            and isinstance(annotation.annotation.slice, expression.Name)"),
     _v("twin-predicate-rewritten", "R20.3", _ANY_OLD, _ANY_RENAMED, "silent"),
+    _v("twin-qualified-any-unwrapped-in-a-loop", "R20.3", _D44_IF,
+       _D44_IF.replace("    if (\n", "    while (\n"), "silent"),
+    _v("qualified-any-loop-tests-the-wrapper", "R20.3",
+       "      annotation = annotation.attr\n",
+       "      annotation = annotation.attr\n"
+       "      if isinstance(annotation, expression.Annotation):\n"
+       "        annotation = annotation.annotation\n"),
     # R20.4
+    {"name": "twin-source-scanned-by-a-read-only-visitor", "rule": "R20.4",
+     "expect": "silent",
+     "edits": [(MP, _MS_DEF, _NAMES_VISITOR + _MS_DEF),
+               (MP, _PY_PARSE, _PY_PARSE + "    names = _DefinedNames()\n"
+                "    py_cst.visit(names)\n")]},
+    {"name": "source-scanned-by-a-transformer", "rule": "R20.4", "expect": "fire",
+     "edits": [(MP, _MS_DEF, _NAMES_VISITOR.replace("cst.CSTVisitor", "cst.CSTTransformer")
+                + _MS_DEF),
+               (MP, _PY_PARSE, _PY_PARSE + "    names = _DefinedNames()\n"
+                "    py_cst.visit(names)\n")]},
+    {"name": "source-scanned-by-a-visitor-with-a-foreign-mixin", "rule": "R20.4",
+     "expect": "fire",
+     "edits": [(MP, _MS_DEF, _NAMES_VISITOR.replace(
+                   "(cst.CSTVisitor)", "(cst.CSTVisitor, codemod.ContextAwareTransformer)")
+                + _MS_DEF),
+               (MP, _PY_PARSE, _PY_PARSE + "    names = _DefinedNames()\n"
+                "    py_cst.visit(names)\n")]},
     _v("filter-applied-to-merged-source", "R20.4",
        "  annotated_src = merge_sources(py=py_src, pyi=pyi_src)\n",
        "  annotated_src = merge_sources(py=py_src, pyi=pyi_src)\n"
@@ -1646,6 +2127,17 @@ VARIANTS = [
        "updated_node.with_changes(returns=None)",
        "updated_node.with_changes(annotation=None)"),
     _v("twin-rebuild-guard-inverted", "R20.6", _REBUILD_OLD, _REBUILD_TWIN, "silent"),
+    _v("twin-assign-target-built-positionally", "R20.6",
+       "cst.AssignTarget(target=updated_node.target)",
+       "cst.AssignTarget(updated_node.target)", "silent"),
+    _v("assign-target-second-positional-is-the-value", "R20.6",
+       "cst.AssignTarget(target=updated_node.target)",
+       "cst.AssignTarget(updated_node.target, updated_node.value)"),
+    _v("assign-built-positionally-without-wrapping-the-target", "R20.6",
+       "          targets=[cst.AssignTarget(target=updated_node.target)],\n"
+       "          value=updated_node.value,\n",
+       "          [updated_node.target],\n"
+       "          updated_node.value,\n"),
     # R20.7
     {"name": "seeded-C20-m1", "rule": "R20.7", "patch": "seeded/C20-m1/patch.diff",
      "expect": "fire"},
